@@ -93,7 +93,7 @@ def gen_schedule(rng, sid):
         elif r < 0.70:
             cmds.append(['CompleteRead', rng.choice(['s', 'w', 'w', 'e', 'pl']), rng.choice(['val'] * 8 + ['skip', 'err'])])
         elif r < 0.85:
-            cmds.append(['CompleteWrite', rng.choice(['w', 'w', 'e', 'pl']), rng.choice(['ok'] * 5 + ['exc'])])
+            cmds.append(['CompleteWrite', rng.choice(['w', 'w', 'e', 'pl']), rng.choice(['ok'] * 5 + ['exc', 'timeout'])])
         elif r < 0.89:
             k = rng.randint(2, 6)
             cmds.append(['SetSequence', 'w', [val() for _ in range(k)], [rng.choice([0, 5, 10, 40]) for _ in range(k)],
@@ -129,6 +129,7 @@ SMALL_A = [['ApiWrite', 'w', None], ['Tick'], ['CompleteRead', 'w', 'val'], ['Co
 SMALL_B = SMALL_A + [['Reset', 'w']]
 SMALL_C = SMALL_B + [['CancelWaitingReader', 'w']]
 SMALL_D = SMALL_C + [['Disable', 'w'], ['Enable', 'w']]
+SMALL_E = SMALL_A + [['CompleteWrite', 'w', 'timeout']]
 
 
 def enum_small(alphabet, maxlen, cap, first_id):
@@ -628,14 +629,16 @@ def check(ctx, res):
     if corpus:
         batches(ctx, res, corpus, stats, seen, 'corpus')
     # exhaustive small scope on the one-port template (capacity 2)
-    small = enum_small(SMALL_D, 4, 2, 0) if ctx.tier == 'quick' else (
-        enum_small(SMALL_A, 8, 2, 0) + enum_small(SMALL_B, 6, 2, 100000) + enum_small(SMALL_D, 5, 2, 200000))
+    small = (enum_small(SMALL_D, 4, 2, 0) + enum_small(SMALL_E, 4, 2, 300000)) if ctx.tier == 'quick' else (
+        enum_small(SMALL_A, 8, 2, 0) + enum_small(SMALL_B, 6, 2, 100000) + enum_small(SMALL_D, 5, 2, 200000)
+        + enum_small(SMALL_E, 6, 2, 300000))
     batches(ctx, res, small, stats, seen, 'small', chunk=4000)
     res['exhaustive'] = True
     res['extra']['exhaustive_scope'] = (
         'all command sequences of length <= %s over {ApiWrite w, Tick, CompleteRead w, CompleteWrite w%s} on one writable port '
         'with manual latencies and capacity 2: %d schedules' % (
-            ('4', ', Reset w, CancelWaitingReader w, Disable w, Enable w', len(small)) if ctx.tier == 'quick' else
+            ('4', ', Reset w, CancelWaitingReader w, Disable w, Enable w; and with a driver timeout', len(small))
+            if ctx.tier == 'quick' else
             ('8 (<= 6 with Reset w added, <= 5 with Reset w, CancelWaitingReader w, Disable w, Enable w added)', '',
              len(small))))
     n = ctx.n(400, 20000)
